@@ -15,6 +15,7 @@ Opts(t) == { <<>>,
              <<R(t, FALSE, 1, t), R(t, FALSE, 7, 50 + t)>>,
              <<R(t, TRUE, 2, 100), R(t, FALSE, 3, t)>>,
              <<E("bad", 1), R(t, FALSE, 2, t)>>,
+             <<E("bad", 5), R(t, FALSE, 6, t)>>,
              <<R(t, FALSE, 13, t)>> }
 SmallScripts == {s \in [MinTTL..MaxTTL -> UNION {Opts(t) : t \in MinTTL..MaxTTL}] : \A t \in MinTTL..MaxTTL : s[t] \in Opts(t)}
 
